@@ -3,6 +3,7 @@
 R1 (engine E1): in the unlock family (nsync_mu_unlock, nsync_mu_runlock, nsync_mu_unlock_without_wakeup, nsync_mu_unlock_slow_), after the
    transition that leaves the calling thread with neither the lock nor the queue spinlock, no instruction up to the return
    accesses memory through a pointer derived from mu (load, store, atomic, or passing it to a callee).
+R2 (engine E1): in the same family no access through mu follows the first semaphore V of a dequeued waiter (the woken thread may free the mutex).
 R3 (CFG, cv): in every function that unlinks records from a condition variable's queue under the cv spinlock and defers their
    wake-up to after the spinlock is dropped, only records proven pooled (NSYNC_WAITER_FLAG_MUCV true edge) may be deferred;
    a record without that proof (an nsync_wait_n caller's on-stack/heap record) must be woken inside the spinlock region.
@@ -152,6 +153,28 @@ def run(ctx, rep):
                 % (r.access, '/'.join(p[1] for p in r.ptr.path if p[0] == 'f') or 'object', r.entry, r.ctx()),
                 site='%s/late-access' % r.inst.fn.name))
     rep.floor('C13.R1', 8)
+    # ---- R2: in the unlock family nothing is accessed through mu once a dequeued waiter has been posted.  A posted waiter can run at once,
+    # acquire the mutex (the fast paths need no spinlock), find itself the last user, release and free it - so the releasing thread must have
+    # finished with the mutex word and queue (including dropping the spinlock) before its first semaphore V.
+    rep.rule('C13.R2', 'unlock family: no access through mu after the first wake-up (semaphore V) of a dequeued waiter')
+    seen2 = set()
+    n2 = 0
+    for r in eng.records:
+        if r.kind == 'call' and r.callee == 'nsync_mu_semaphore_v' and any(r.entry.startswith(u) for u in UNLOCK_FAMILY):
+            n2 += 1
+            rep.instance('C13.R2', 'wake-up at %s [%s]' % (r.where(), r.entry)); rep.oblig('C13.R2', True)
+    for r in eng.records:
+        if r.kind == 'access_after_wake' and any(r.entry.startswith(u) for u in UNLOCK_FAMILY):
+            key = (r.inst.fn.name, r.inst.id)
+            if key in seen2:
+                continue
+            seen2.add(key)
+            rep.instance('C13.R2', '%s of mu after a wake-up at %s [%s]' % (r.access, r.where(), r.entry)); rep.oblig('C13.R2', False)
+            rep.violate(Violation('C13.R2', r.where(),
+                '%s of the mutex (%s) after a dequeued waiter has already been posted: the woken thread can acquire the mutex, drop the last reference and free it before this access [entry %s, via %s]'
+                % (r.access, '/'.join(p[1] for p in r.ptr.path if p[0] == 'f') or 'object', r.entry, r.ctx()), site='%s/access-after-wake' % r.inst.fn.name))
+    if n2 == 0:
+        raise AnalysisBroken('C13.R2: no wake-up found in the unlock family')
     # ---- R3: deferred wake-ups on condition variables
     cvq = 'nsync_cv_s_.waiters'
     for fn in mod.defined.values():
